@@ -9,6 +9,8 @@ CONSTANTS
   UncOffs = {0, 1, 3, 8}
   UncPrecs = {1, 2, 3}
   Units = {}
+  Convs = {}
+  UncSrcs = {"arg"}
   RomanMax = 0
 INVARIANT TypeOK
 INVARIANT RoundCarries
